@@ -385,7 +385,10 @@ class Ctx:
         return lc
 
     def _spec_frame(self, fr):
-        sub = Frame(self.sidecar, fr.func, True, fr.locals, fr.depth)
+        # the contract's named objects are visible in loop invariants (function locals shadow them)
+        loc = {nm: v for nm, (v, _) in self.named.items()}
+        loc.update(fr.locals)
+        sub = Frame(self.sidecar, fr.func, True, loc, fr.depth)
         sub.fallback = fr.module
         return sub
 
@@ -1706,6 +1709,8 @@ class Ctx:
         self.log = []
         outcome = None
         fr = Frame(self.sidecar, None, False, {}, 0)
+        fr.is_root = True
+        self.exit_locals = None
         a = target.node.args
         pnames = [x.arg for x in a.posonlyargs + a.args]
         args = [env[p] for p in pnames if p in env]
@@ -1721,6 +1726,10 @@ class Ctx:
             self.result.return_paths += 1
             env2 = dict(env)
             env2["result"] = outcome[1]
+            if getattr(self, "exit_locals", None) is not None:
+                ex_obj = PObj("Locals", label="_exit")
+                ex_obj.fields.update(self.exit_locals)
+                env2["_exit"] = ex_obj        # the target's locals at its exit (ghost access for postconditions)
             for gname, wit in c.ghost_witness.items():
                 fr_w = Frame(self.sidecar, None, True, dict(env2))
                 env2[gname] = I.eval(ast.parse(wit, mode="eval").body, fr_w)
